@@ -44,6 +44,11 @@ def gen_cases(seed, tier):
 
 def impl_case(case):
     r = R.impl_replay(case)
+    if case.get("strided_grid") and isinstance(r, dict) and "rows" in r:
+        # the same run with the grid passed as an ordinary contiguous array: what is reported for a time point cannot depend on how
+        # the caller's array is laid out in memory
+        rc = R.impl_replay(dict(case, strided_grid=False))
+        r["contiguous_rows"] = rc.get("rows") if isinstance(rc, dict) else None
     if "rescaled" in case and isinstance(r, dict) and "rows" in r:
         rb = R.impl_replay(case["rescaled"]["base"])
         r["base_rows"] = rb.get("rows") if isinstance(rb, dict) else None
@@ -53,6 +58,10 @@ compare = R.compare
 def oracle(case, r):
     m = c06.oracle(case, r)
     if m: return m
+    if case.get("strided_grid") and isinstance(r, dict) and r.get("contiguous_rows") is not None and r["rows"] != r["contiguous_rows"]:
+        k = next((i for i, (a, b) in enumerate(zip(r["rows"], r["contiguous_rows"])) if a != b), -1)
+        return "grid layout: with the time grid passed as a non-contiguous view (same values, same seed) row %d is %r, with a contiguous grid %r" % (
+            k, [float.fromhex(v) for v in r["rows"][k]] if k >= 0 else len(r["rows"]), [float.fromhex(v) for v in r["contiguous_rows"][k]] if k >= 0 else len(r["contiguous_rows"]))
     if "rescaled" in case and r.get("base_rows") is not None and r["rows"] != r["base_rows"]:
         k = next(i for i, (a, b) in enumerate(zip(r["rows"], r["base_rows"])) if a != b) if len(r["rows"]) == len(r["base_rows"]) else -1
         return "time rescaling: with every rate constant x 1e-%d and the grid x 1e%d (same seed) row %d is %r, the unscaled run has %r" % (
